@@ -201,13 +201,15 @@ def tofloat(s: str) -> float:
 
 
 def table():
-    """function name -> the callable BLEND_FUNC returns for the BlendMode mapped to it"""
-    from psd_tools.composite.blend import BLEND_FUNC
+    """function name -> what the compositor would call for the BlendMode of that name:
+    `BLEND_FUNC.get(BlendMode.<NAME>, normal)` (the property's observation point)"""
+    from psd_tools.composite.blend import BLEND_FUNC, normal
     from psd_tools.constants import BlendMode
     t = {}
-    for k, f in BLEND_FUNC.items():
-        if isinstance(k, BlendMode):
-            t.setdefault(f.__name__, f)
+    for fn in SEP + NONSEP + ["dissolve"]:
+        mode = getattr(BlendMode, fn.upper(), None)
+        if mode is not None:
+            t[fn] = BLEND_FUNC.get(mode, normal)
     return t
 
 
